@@ -151,7 +151,7 @@ Proof.
   intros Hc. induction pre as [|o pre IH]; intros i post H.
   - cbn [app List.length]. rewrite Nat.add_0_r. reflexivity.
   - cbn [none_claims forallb] in H. apply andb_true_iff in H as [Ho H]. destruct o as [cf|]; [|discriminate].
-    apply negb_true_iff in Ho. cbn [app parse_all_from]. unfold parse_one.
+    apply negb_true_iff in Ho. cbn [app parse_all_from]. unfold parse_one, parse_one_v.
     rewrite (a_find_sound _ _ _ Hc Ho). rewrite (IH (S i) post H). cbn [List.length]. f_equal. lia.
 Qed.
 
@@ -502,7 +502,7 @@ Section OneInstant.
   Proof.
     pose proof civ_of_s as Hc. pose proof fmt_sec_eq as He.
     destruct (civil_from_days days) as [[y m] d]. destruct Hc as [Hc Hd]. rewrite He, whole_text_eq.
-    unfold parse_one. rewrite (rx_find_whole _ _ _ (whole_concr _ _ _ _ _ _ Hc) match_whole).
+    unfold parse_one, parse_one_v, go_parse_retry. rewrite (rx_find_whole _ _ _ (whole_concr _ _ _ _ _ _ Hc) match_whole).
     unfold go_parse. rewrite elems_whole, (parse_whole _ _ _ _ _ _ Hc).
     rewrite st_sec_nsec, (finish_whole _ _ _ _ _ _ 0 Hc).
     rewrite adjust_year by reflexivity.
@@ -515,7 +515,7 @@ Section OneInstant.
   Proof.
     intros Hns. pose proof civ_of_s as Hc. pose proof fmt_sec_eq as He.
     destruct (civil_from_days days) as [[y m] d]. destruct Hc as [Hc Hd]. rewrite He, frac_text_eq.
-    unfold parse_one. rewrite (rx_find_whole _ _ _ (frac_concr _ _ _ _ _ _ _ Hc Hns) match_frac).
+    unfold parse_one, parse_one_v, go_parse_retry. rewrite (rx_find_whole _ _ _ (frac_concr _ _ _ _ _ _ _ Hc Hns) match_frac).
     unfold go_parse. rewrite elems_frac, (parse_frac _ _ _ _ _ _ _ Hc Hns).
     rewrite (finish_whole _ _ _ _ _ _ ns Hc).
     rewrite adjust_year by reflexivity.
